@@ -66,9 +66,9 @@ func (nm *vfrdNamer) name(l int) string {
 type vfrdEnt struct {
 	Len int    `json:"len"`
 	K   string `json:"k"`
-	Fl  int    `json:"fl"` // fileid token from LOOKUP (0 = LOOKUP failed)
-	Fg  int    `json:"fg"` // fileid token from GETATTR on the looked-up handle (0 = none)
-	Nm  string `json:"nm"` // first bytes of the name (for the reader)
+	Fl  int    `json:"fl"`  // fileid token from LOOKUP (0 = LOOKUP failed)
+	Fg  int    `json:"fg"`  // fileid token from GETATTR on the looked-up handle (0 = none)
+	Nm  string `json:"nm"`  // first bytes of the name (for the reader)
 	Odd bool   `json:"odd"` // the name contains ".." or a backslash
 }
 
